@@ -69,4 +69,134 @@ theorem sem_pbDecoded (m : Metric) : sem (pbDecoded m) = sem m := by
     by_cases h4 : m.value = [] <;> by_cases h5 : m.unique = [] <;>
     simp [h1, h2, h3, h4, h5]
 
+theorem optLen (c : Prop) [Decidable c] (rec : Bytes) (h : 1 ≤ rec.length) :
+    (if c then 0 else 1) ≤ (if c then ([] : Bytes) else rec).length := by
+  by_cases hc : c
+  · simp [hc]
+  · simp only [if_neg hc]; exact h
+
+theorem pbMetric_enc (v : Variant) (m : Metric) (w : m.WF) :
+    pbMetric v ((pbEncMetric m).length + 1) {} (pbEncMetric m) = .ok (pbDecoded m) := by
+  have hd : pbEncMetric m =
+      (if m.name = [] then [] else pbEncLen 1 m.name) ++ (catMap pbTagRec m.tags ++
+      ((if m.counter = 0 then [] else pbEncTag 3 1 ++ le 8 m.counter) ++
+      ((if m.ts = 0 then [] else pbEncTag 4 0 ++ pbEncV m.ts) ++
+      ((if m.value = [] then [] else pbEncLen 5 (catMap (le 8) m.value)) ++
+      ((if m.unique = [] then [] else pbEncLen 6 (catMap pbEncV m.unique)) ++
+      (catMap pbHistRec m.hist ++ [])))))) := by
+    unfold pbEncMetric
+    simp only [List.append_assoc, List.append_nil]
+    rfl
+  rw [hd]
+  -- enough fuel: one unit per record, and every record is at least one byte long
+  have l1 := optLen (m.name = []) (pbEncLen 1 m.name) (by have := pbEncLen_length_ge 1 m.name; omega)
+  have l2 := catMap_length_ge pbTagRec 1 m.tags (fun kv _ => by have := pbEncLen_length_ge 2 (pbEncLen 1 kv.1 ++ pbEncLen 2 kv.2); unfold pbTagRec; omega)
+  have l3 := optLen (m.counter = 0) (pbEncTag 3 1 ++ le 8 m.counter) (by simp [le_length])
+  have l4 := optLen (m.ts = 0) (pbEncTag 4 0 ++ pbEncV m.ts) (by have := pbEncV_length_pos m.ts; simp; omega)
+  have l5 := optLen (m.value = []) (pbEncLen 5 (catMap (le 8) m.value)) (by have := pbEncLen_length_ge 5 (catMap (le 8) m.value); omega)
+  have l6 := optLen (m.unique = []) (pbEncLen 6 (catMap pbEncV m.unique)) (by have := pbEncLen_length_ge 6 (catMap pbEncV m.unique); omega)
+  have l7 := catMap_length_ge pbHistRec 1 m.hist (fun h _ => by have := pbEncLen_length_ge 7 (pbEncCentroid h); unfold pbHistRec; omega)
+  obtain ⟨e, he⟩ : ∃ e, ((if m.name = [] then [] else pbEncLen 1 m.name) ++ (catMap pbTagRec m.tags ++
+      ((if m.counter = 0 then [] else pbEncTag 3 1 ++ le 8 m.counter) ++
+      ((if m.ts = 0 then [] else pbEncTag 4 0 ++ pbEncV m.ts) ++
+      ((if m.value = [] then [] else pbEncLen 5 (catMap (le 8) m.value)) ++
+      ((if m.unique = [] then [] else pbEncLen 6 (catMap pbEncV m.unique)) ++
+      (catMap pbHistRec m.hist ++ []))))))).length + 1 =
+      (((((((e + 1) + m.hist.length) + (if m.unique = [] then 0 else 1)) + (if m.value = [] then 0 else 1))
+        + (if m.ts = 0 then 0 else 1)) + (if m.counter = 0 then 0 else 1)) + m.tags.length) + (if m.name = [] then 0 else 1) := by
+    simp only [List.length_append, List.length_nil]
+    refine ⟨(if m.name = [] then ([] : Bytes) else pbEncLen 1 m.name).length + (catMap pbTagRec m.tags).length
+      + (if m.counter = 0 then ([] : Bytes) else pbEncTag 3 1 ++ le 8 m.counter).length
+      + (if m.ts = 0 then ([] : Bytes) else pbEncTag 4 0 ++ pbEncV m.ts).length
+      + (if m.value = [] then ([] : Bytes) else pbEncLen 5 (catMap (le 8) m.value)).length
+      + (if m.unique = [] then ([] : Bytes) else pbEncLen 6 (catMap pbEncV m.unique)).length
+      + (catMap pbHistRec m.hist).length
+      - (m.hist.length + (if m.unique = [] then 0 else 1) + (if m.value = [] then 0 else 1)
+        + (if m.ts = 0 then 0 else 1) + (if m.counter = 0 then 0 else 1) + m.tags.length + (if m.name = [] then 0 else 1)), ?_⟩
+    omega
+  rw [he]
+  -- name
+  rw [pbOpt v (m.name = []) _ {} { ({} : Metric) with name := m.name } (pbEncLen 1 m.name) _
+    (fun _ n => pbRec_name v n {} m.name _ w.name)]
+  rw [show (if m.name = [] then ({} : Metric) else { ({} : Metric) with name := m.name }) = pbP1 m from rfl]
+  -- tags
+  rw [pbTags_enc v m.tags (pbP1 m) _ _ w.tags]
+  rw [show ({ pbP1 m with tags := (pbP1 m).tags ++ m.tags } : Metric) = pbP2 m from rfl]
+  -- counter
+  rw [pbOpt v (m.counter = 0) _ (pbP2 m) { pbP2 m with counter := m.counter, mask := setBit (pbP2 m).mask 0 }
+    (pbEncTag 3 1 ++ le 8 m.counter) _ (fun _ n => pbRec_counter v n (pbP2 m) m.counter _ w.counter)]
+  rw [show (if m.counter = 0 then pbP2 m else { pbP2 m with counter := m.counter, mask := setBit (pbP2 m).mask 0 }) = pbP3 m from rfl]
+  -- ts
+  rw [pbOpt v (m.ts = 0) _ (pbP3 m) { pbP3 m with ts := m.ts, mask := setBit (pbP3 m).mask 4 }
+    (pbEncTag 4 0 ++ pbEncV m.ts) _ (fun _ n => pbRec_ts v n (pbP3 m) m.ts _ w.ts)]
+  rw [show (if m.ts = 0 then pbP3 m else { pbP3 m with ts := m.ts, mask := setBit (pbP3 m).mask 4 }) = pbP4 m from rfl]
+  -- value
+  rw [pbOpt v (m.value = []) _ (pbP4 m) { pbP4 m with value := (pbP4 m).value ++ m.value, mask := setBit (pbP4 m).mask 1 }
+    (pbEncLen 5 (catMap (le 8) m.value)) _ (fun _ n => pbRec_value v n (pbP4 m) m.value _ w.valueLen w.value)]
+  rw [show (if m.value = [] then pbP4 m else { pbP4 m with value := (pbP4 m).value ++ m.value, mask := setBit (pbP4 m).mask 1 }) = pbP5 m from rfl]
+  -- unique
+  rw [pbOpt v (m.unique = []) _ (pbP5 m) { pbP5 m with unique := (pbP5 m).unique ++ m.unique, mask := setBit (pbP5 m).mask 2 }
+    (pbEncLen 6 (catMap pbEncV m.unique)) _ (fun _ n => pbRec_unique v n (pbP5 m) m.unique _ w.uniqueLen w.unique)]
+  rw [show (if m.unique = [] then pbP5 m else { pbP5 m with unique := (pbP5 m).unique ++ m.unique, mask := setBit (pbP5 m).mask 2 }) = pbP6 m from rfl]
+  -- histogram
+  rw [pbHist_enc v m.hist (pbP6 m) _ _ w.hist]
+  simp only [pbMetric, if_true]
+  rfl
+
+
+/-! ### the batch -/
+
+def pbBatchRec (m : Metric) : Bytes := pbEncLen 13337 (pbEncMetric m)
+
+theorem pbBatch_step (v : Variant) (f : Nat) (acc : List Metric) (m : Metric) (w : m.WF)
+    (hsz : (pbEncMetric m).length < 2 ^ 32) (t : Bytes) :
+    pbBatch v (f + 1) acc (pbBatchRec m ++ t) = pbBatch v f (acc ++ [pbDecoded m]) t := by
+  unfold pbBatchRec
+  simp only [pbBatch]
+  rw [if_neg (pbEncLen_ne_nil 13337 _ t), pbLen_tag 13337 _ t (by decide) (by decide)]
+  simp only [and_self, if_true]
+  rw [pbBytes_enc _ t (Nat.lt_trans hsz (by decide))]
+  simp only []
+  rw [pbMetric_enc v m w]
+
+theorem pbBatch_list (v : Variant) : ∀ (ms : List Metric) (acc : List Metric) (k : Nat) (t : Bytes),
+    (∀ m ∈ ms, m.WF ∧ (pbEncMetric m).length < 2 ^ 32) →
+    pbBatch v (k + ms.length) acc (catMap pbBatchRec ms ++ t) = pbBatch v k (acc ++ ms.map pbDecoded) t := by
+  intro ms
+  induction ms with
+  | nil => intro acc k t _; simp [catMap]
+  | cons m ms ih =>
+    intro acc k t h
+    have e : k + (m :: ms).length = (k + ms.length) + 1 := by simp; omega
+    rw [e, catMap_cons, List.append_assoc, pbBatch_step v _ acc m (h m (by simp)).1 (h m (by simp)).2,
+      ih _ k t (fun x hx => h x (by simp [hx]))]
+    simp
+
+theorem pbBatch_enc (v : Variant) (ms : List Metric) (h : ∀ m ∈ ms, m.WF ∧ (pbEncMetric m).length < 2 ^ 32) :
+    pbBatch v ((pbEncBatch ms).length + 1) [] (pbEncBatch ms) = .ok (ms.map pbDecoded) := by
+  have hb : pbEncBatch ms = catMap pbBatchRec ms ++ [] := by rw [List.append_nil]; rfl
+  have hl := catMap_length_ge pbBatchRec 1 ms (fun m _ => by have := pbEncLen_length_ge 13337 (pbEncMetric m); unfold pbBatchRec; omega)
+  rw [hb]
+  have e : (catMap pbBatchRec ms ++ []).length + 1 = (((catMap pbBatchRec ms).length - ms.length) + 1) + ms.length := by
+    simp only [List.length_append, List.length_nil]; omega
+  rw [e, pbBatch_list v ms [] _ [] h]
+  simp [pbBatch]
+
+theorem detect_pbEnc (m : Metric) (ms : List Metric) : detect (pbEncBatch (m :: ms)) = .pb := by
+  have e : pbEncTag 13337 2 = [0xca, 0xc1, 0x06] := by decide
+  have : pbEncBatch (m :: ms) = 0xca :: ([0xc1, 0x06] ++ pbEncV (pbEncMetric m).length ++ pbEncMetric m
+      ++ catMap (fun m => pbEncLen 13337 (pbEncMetric m)) ms) := by
+    simp [pbEncBatch, catMap, pbEncLen, e]
+  rw [this]
+  simp [detect, tlPrefix, mpLooksLikeMap, mpMapHdr, mpBadPrefix]
+
+/-- parser.parse on the Protobuf encoding of a non-empty batch -/
+theorem parse_pbEnc (v : Variant) (m : Metric) (ms : List Metric)
+    (h : ∀ x ∈ m :: ms, x.WF ∧ (pbEncMetric x).length < 2 ^ 32) :
+    parse v (pbEncBatch (m :: ms)) = { fmt := .pb, delivered := (m :: ms).map pbDecoded } := by
+  unfold parse
+  rw [detect_pbEnc m ms]
+  simp only []
+  rw [pbBatch_enc v (m :: ms) h]
+
 end SH.Wire
